@@ -93,8 +93,8 @@ type Stream struct {
 	inMessage     bool   // True if currently decoding a multi-frame message
 
 	// Timeout settings (matches HTCondor's Stream timeout behavior)
-	timeout            time.Duration // Socket timeout duration (0 = no timeout)
-	cryptoBeforeSecret bool          // Saved encryption state before sending/receiving secret
+	timeout             time.Duration // Socket timeout duration (0 = no timeout)
+	secretCryptoToggled bool          // True while encryption is switched on only for a secret (see prepareCryptoForSecret)
 }
 
 // CEDAR protocol constants based on HTCondor's reli_sock.cpp
@@ -1240,17 +1240,25 @@ func (s *Stream) SetCryptoMode(enabled bool) bool {
 // prepareCryptoForSecret prepares encryption state before sending/receiving a secret
 // Based on HTCondor's Stream::prepare_crypto_for_secret() from stream.cpp
 func (s *Stream) prepareCryptoForSecret() {
-	s.cryptoBeforeSecret = s.encrypted
-	// Enable encryption if available
-	if s.gcm != nil && !s.encrypted {
-		s.encrypted = true
+	// Nothing to toggle when the stream already encrypts or has no key. Write
+	// nothing in that case: the other direction of the stream may be running in
+	// another goroutine and reads s.encrypted for every frame.
+	if s.gcm == nil || s.encrypted {
+		return
 	}
+	// Keyed but not encrypting: switch encryption on for this one field.
+	s.secretCryptoToggled = true
+	s.encrypted = true
 }
 
 // restoreCryptoAfterSecret restores encryption state after sending/receiving a secret
 // Based on HTCondor's Stream::restore_crypto_after_secret() from stream.cpp
 func (s *Stream) restoreCryptoAfterSecret() {
-	s.encrypted = s.cryptoBeforeSecret
+	if !s.secretCryptoToggled {
+		return // prepareCryptoForSecret changed nothing
+	}
+	s.secretCryptoToggled = false
+	s.encrypted = false
 }
 
 // PrepareCryptoForSecret / RestoreCryptoAfterSecret expose the crypto-for-secret
